@@ -307,6 +307,13 @@ def siblingCheck (M : DPDA σ α γ) (q : σ) (sibPath : List (γ × (σ × List
       | none => .error (.py .keyError)
       | some epsRow => guardE (!ahas Y epsRow) (.lib .nondeterminismError)
 
+/-- The body of `for sib_input_symbol, sib_path in sib_transitions.items()`:
+`if sib_input_symbol != "": self._validate_transition_lambda_transition_sibling(...)`. -/
+def validateSibling (M : DPDA σ α γ) (q : σ) (sib : Option α × List (γ × (σ × List γ))) : Res Unit :=
+  match sib.1 with
+  | none => .ok ()
+  | some _ => M.siblingCheck q sib.2
+
 /-- `_validate_transition_isolated_lambda_transitions(start_state, input_symbol, stack_symbol)`
 (the stack symbol is not used by the code). -/
 def validateIsolated (M : DPDA σ α γ) (q : σ) (a : Option α) : Res Unit :=
@@ -315,11 +322,7 @@ def validateIsolated (M : DPDA σ α γ) (q : σ) (a : Option α) : Res Unit :=
   | none =>
     match alookup q M.trans with
     | none => .error (.py .keyError)
-    | some sibs =>
-      firstErr sibs fun sib =>
-        match sib.1 with
-        | none => .ok ()
-        | some _ => M.siblingCheck q sib.2
+    | some sibs => firstErr sibs fun sib => M.validateSibling q sib
 
 /-- `DPDA._validate_transition_invalid_symbols(start_state, paths)`. -/
 def validateRow (M : DPDA σ α γ) (q : σ) (paths : List (Option α × List (γ × (σ × List γ)))) : Res Unit :=
